@@ -189,20 +189,18 @@ func (o *oracle) refDerive(cpriv []byte, serverKey string) { o.refSecret(cpriv, 
 
 // ---- Coq tables ---------------------------------------------------------------------
 
-// blockTab groups the entries by key: [(key, [(in, out); ...]); ...]
+// blockTab groups the entries by key and packs them: [(key, in0 ‖ out0 ‖ in1 ‖ out1 ‖ ...); ...]
 func blockTab(es []blockEntry) string {
 	var keys []string
-	byKey := map[string][]blockEntry{}
+	byKey := map[string][]byte{}
 	for _, e := range es {
 		k := string(e.key)
 		if _, ok := byKey[k]; !ok {
 			keys = append(keys, k)
 		}
-		byKey[k] = append(byKey[k], e)
+		byKey[k] = append(append(byKey[k], e.in...), e.out...)
 	}
-	return vh.ListOf(keys, func(k string) string {
-		return vh.Pair(lit([]byte(k)), vh.ListOf(byKey[k], func(e blockEntry) string { return vh.Pair(lit(e.in), lit(e.out)) }))
-	})
+	return vh.ListOf(keys, func(k string) string { return vh.Pair(lit([]byte(k)), lit(byKey[k])) })
 }
 
 func (o *oracle) tabE() string { return blockTab(o.es) }
